@@ -5,6 +5,7 @@ import typing
 import binascii
 from typing import Optional
 from lbry.error import InvalidBlobHashError, InvalidDataError
+from lbry.blob import MAX_BLOB_SIZE
 from lbry.blob_exchange.serialization import BlobResponse, BlobRequest
 from lbry.utils import cache_concurrent
 if typing.TYPE_CHECKING:
@@ -64,8 +65,12 @@ class BlobExchangeClientProtocol(asyncio.Protocol):
         if response.responses and self.blob:
             blob_response = response.get_blob_response()
             if blob_response and not blob_response.error and blob_response.blob_hash == self.blob.blob_hash:
-                # set the expected length for the incoming blob if we didn't know it
-                self.blob.set_length(blob_response.length)
+                # if we didn't know the length, what this peer announces is only its claim: expect it on this
+                # connection's writer and leave the shared blob alone until the bytes have verified
+                announced = blob_response.length
+                if self.blob.get_length() is None and self.writer and isinstance(announced, int) and \
+                        0 <= announced <= MAX_BLOB_SIZE:
+                    self.writer.get_length = lambda: announced
             elif blob_response and not blob_response.error and self.blob.blob_hash != blob_response.blob_hash:
                 # the server started sending a blob we didn't request
                 log.warning("%s started sending blob we didn't request %s instead of %s", self.peer_address,
@@ -81,8 +86,8 @@ class BlobExchangeClientProtocol(asyncio.Protocol):
             self._write(response.blob_data)
 
     def _write(self, data: bytes):
-        if len(data) > (self.blob.get_length() - self._blob_bytes_received):
-            data = data[:(self.blob.get_length() - self._blob_bytes_received)]
+        if len(data) > (self.writer.get_length() - self._blob_bytes_received):
+            data = data[:(self.writer.get_length() - self._blob_bytes_received)]
             log.warning("got more than asked from %s:%d, probable sendfile bug", self.peer_address, self.peer_port)
         self._blob_bytes_received += len(data)
         try:
